@@ -147,7 +147,7 @@ def handleBindS (s2s remote reqid reqres cb a cbjid rto rfrom : String) : Option
     | some q =>
       let j := match q.assigned with
         | none => "-"
-        | some .random => "RND"
+        | some (.random _) => "RND"
         | some (.jid j) => hx j
       s!"{q.type} {hx q.id} {j} {q.cond.getD "-"}"
   let tail := match r.reply with
@@ -166,12 +166,26 @@ def handleConcB (items : List String) : Option String := do
       | some q, some (a, b) =>
         let jj := match q.assigned with
           | some (.jid j) => hx j
-          | some .random => "RND"
+          | some (.random _) => "RND"
           | none => "-"
         some s!"{q.type} {hx q.id} {jj} {r.err.getD "nil"} {showBool r.ready} {hx a}/{hx b} {hx q.to}"
       | _, _ => none
     | _ => none) ((List.range items.length).zip items)
   pure (" ; ".intercalate rs)
+
+/-- `k` receiving sessions on one `BindResource()` value: the resources assigned, named by the
+order in which the random source handed them out -/
+def handleBindR (k remote : String) : Option String := do
+  let n ← k.toNat?
+  let remote ← txt remote
+  let reqs := (List.range n).map fun i => (⟨remote, s!"id{i}", none, .absent, .absent, .default⟩ : Bind.Req)
+  let rs := Bind.serveAll 0 reqs
+  let names ← mapM? (fun (r : Bind.SRes) => match r.reply with
+    | some q => match q.assigned with
+      | some (.random j) => some s!"R{j}"
+      | _ => none
+    | none => none) rs
+  pure (" ".intercalate names)
 
 def handle (args : List String) : Option String :=
   match args with
@@ -180,6 +194,7 @@ def handle (args : List String) : Option String :=
   | "nege" :: role :: ws :: s2s :: loc :: orig :: jids :: tee :: budget :: cancel :: hdrs =>
     handleNeg role ws s2s loc orig jids (some (tee, budget, cancel)) hdrs
   | ["tag", bytes] => handleTag bytes
+  | ["bindr", _mode, k, remote] => handleBindR k remote
   | "concb" :: _sched :: items => handleConcB items
   | ["bindc", locl, reply, a, b, ajid, bjid] => handleBindC locl reply a b ajid bjid
   | ["binds", s2s, remote, reqid, reqres, cb, a, cbjid, rto, rfrom] =>
